@@ -280,7 +280,7 @@ def body_E1(ctx):
     script = []
     flags = set()
     for step in range(H):
-        ops = ["stop", "log", "add1", "add2", "remove", "global"]
+        ops = ["stop", "log", "add1", "add2", "remove", "global", "add0"]
         if sh.get("bulk", 1) and step == 0:
             ops.append("bulk")
         op = ops[ctx.choose(len(ops), "op")]
@@ -304,6 +304,11 @@ def body_E1(ctx):
                 else:
                     for d in registered:
                         expected[d.name].append((i, dict(globs)))
+        elif op == "add0":
+            add_destinations()  # e.g. add_destinations(*configured) with an empty configuration
+            if not any_added:
+                any_added = True  # buffering ends with the first call, whatever it names
+                buffered = []
         elif op in ("add1", "add2"):
             free = [d for d in dests if d not in registered]
             if len(free) < (1 if op == "add1" else 2):
@@ -449,7 +454,7 @@ def _e1_shards(tier):
     base = {"H": 4, "bulk": 1} if tier == "quick" else {"H": 5, "bulk": 1}
     out = []
     for p in enumerate_prefixes(body_E1, "X", {}, base, 2 if tier == "quick" else 3):
-        if p and p[0] == 6:  # bulk histories are expensive per path: split them further
+        if p and p[0] == 7:  # bulk histories are expensive per path: split them further
             out += [dict(base, prefix=q) for q in enumerate_prefixes(body_E1, "X", {}, dict(base, prefix=None), len(p) + 2) if q[: len(p)] == p]
         else:
             out.append(dict(base, prefix=p))
@@ -460,7 +465,7 @@ OBLIGATIONS = [
     Ob("L1", None, body_L1_replay, "X", desc="BufferingDestination.__call__: len' = min(len+1, 1000), content = last len' elements of old+[m] in order, loop exits - SMT encoding generated from the AST, decided by z3 and cvc5", functions=["BufferingDestination.__call__"], smt=smt_L1,
        timeout={"quick": 200, "thorough": 200}, bounds={"quick": "every pre-state with 0..1000 buffered messages (window lower bound any integer >= 0), every message; while-loop unrolled twice with an unwinding assertion"},
        assumptions=["list append/pop(0)/pop()/len modelled as an integer-indexed array window [lo, hi)"]),
-    Ob("E1", E1, body_E1, "X", desc="histories of log / add_destinations(1 or 2) / remove_destination / add_global_fields / bulk log (1001-1003 messages, as first operation) against a reference model", functions=["Destinations.add", "Destinations.remove", "Destinations.send", "Destinations.addGlobalFields", "BufferingDestination.__call__", "eliot.add_destinations", "eliot.remove_destination", "eliot.add_global_fields"],
+    Ob("E1", E1, body_E1, "X", desc="histories of log / add_destinations(0, 1 or 2 destinations) / remove_destination / add_global_fields / bulk log (1001-1003 messages, as first operation) against a reference model", functions=["Destinations.add", "Destinations.remove", "Destinations.send", "Destinations.addGlobalFields", "BufferingDestination.__call__", "eliot.add_destinations", "eliot.remove_destination", "eliot.add_global_fields"],
        shards=_e1_shards, twin=[{"H": 4, "bulk": 1, "twin_label": "buffer-and-remove"}], timeout={"quick": 100, "thorough": 1500}, path_timeout=120,
        bounds={"quick": "histories of <= 4 operations over 3 destinations, 2 global keys", "thorough": "<= 5 operations"}),
     Ob("E2", E2, body_E2, "X", desc="a logging thread against the thread performing the first add_destinations, line granularity in eliot/_output.py", functions=["Destinations.add", "Destinations.send", "Logger.write", "BufferingDestination.__call__"],
